@@ -52,7 +52,9 @@ fn gen_address(rng: &mut Rng) -> (Address, &'static str) {
         4 => {
             let path = PathBuf::from(OsString::from_vec(rand_bytes(rng, 16, true)));
             let arg0 = if rng.bool() { Some(OsString::from_vec(rand_bytes(rng, 8, true))) } else { None };
-            let args: Vec<OsString> = (0..rng.usize_below(4)).map(|_| OsString::from_vec(rand_bytes(rng, 8, true))).collect();
+            // argument counts across the one- / two-digit key boundary (argv9, argv10, ...) as well as the usual few
+            let nargs = if rng.chance(2, 5) { *rng.pick(&[8usize, 9, 10, 11, 12, 20, 25, 101]) } else { rng.usize_below(4) };
+            let args: Vec<OsString> = (0..nargs).map(|_| OsString::from_vec(rand_bytes(rng, 8, true))).collect();
             (Transport::Unixexec(Unixexec::new(path, arg0, args)), "unixexec")
         }
         5 => {
@@ -91,6 +93,11 @@ pub fn run(ctx: &mut Ctx) {
         ctx.guarded(i, &note, || json!({"kind": kind}), |ctx| {
             ctx.count("evaluations", 1);
             ctx.count(&format!("class:{kind}"), 1);
+            if let Transport::Unixexec(u) = a.transport() {
+                if u.args().len() >= 10 {
+                    ctx.count("class:unixexec-10-or-more-arguments", 1);
+                }
+            }
             let s = a.to_string();
             ctx.distinct(fnv(&s));
             match Address::from_str(&s) {
